@@ -232,8 +232,10 @@ def endpoint_gen(rng, tier):
                                 listen = "priv6" if fam == "v6" else "priv4"
                             else:
                                 listen = "none"
-                                if not stream and base != "udp" and rng.random() < 0.9:
-                                    continue    # nothing observable on the quic path without a server
+                                if not stream and base != "udp":
+                                    # nothing is observable on the quic path without a server, and a client left
+                                    # retransmitting its Initial to a loopback port would disturb a later case
+                                    continue
                         san = name
                         if tls and listen != "none" and rng.random() < 0.15:
                             san = {"v4": "127.0.0.2", "v6": "::2", "dom": "other.test"}[hk]
